@@ -382,6 +382,8 @@ impl<'a> Instance<'a> {
             }
             let ins = &body[pc];
             let watched = !self.host.watch.is_empty() && self.host.watch.contains(&(li as u32, pc as u32));
+            // an `if` whose condition is false does not "complete": control goes to its else-arm
+            let mut skip_done = false;
             if watched {
                 self.virt(V_EXEC, li, pc);
             }
@@ -448,6 +450,7 @@ impl<'a> Instance<'a> {
                         match c.1 {
                             Some(e) => {
                                 self.virt(V_ENTER, li, e);
+                                skip_done = true;
                                 pc = e // continue after the else
                             }
                             None => {
@@ -821,7 +824,7 @@ impl<'a> Instance<'a> {
                 }
                 continue;
             }
-            if watched {
+            if watched && !skip_done {
                 self.virt(V_DONE, li, pc);
             }
             pc += 1;
